@@ -273,14 +273,21 @@ def generate(files: List[str]) -> List[Dict[str, Any]]:
             except SyntaxError:
                 continue
             muts.append(m)
+    base = subprocess.run(["git", "-C", "/repo", "rev-parse", "HEAD"], stdout=subprocess.PIPE, check=True).stdout.decode().strip()
     for i, m in enumerate(muts):
         m["id"] = i
+        m["base"] = base
     return muts
 
 
 def scratch(m: Dict[str, Any]) -> str:
     tmp = tempfile.mkdtemp(prefix="ms_", dir="/tmp")
-    shutil.copytree("/repo/src", os.path.join(tmp, "src"), ignore=shutil.ignore_patterns("__pycache__", "*.so", "*.c"))
+    if m.get("base"):
+        # the tree the change was generated from (later commits in /repo must not shift the recorded offsets)
+        ar = subprocess.run(["git", "-C", "/repo", "archive", m["base"], "src"], stdout=subprocess.PIPE, check=True)
+        subprocess.run(["tar", "-x", "-C", tmp], input=ar.stdout, check=True)
+    else:
+        shutil.copytree("/repo/src", os.path.join(tmp, "src"), ignore=shutil.ignore_patterns("__pycache__", "*.so", "*.c"))
     p = os.path.join(tmp, "src", "zeroconf", m["file"])
     text = open(p).read()
     assert text[m["a"]:m["b"]] == m["old"], "source changed since generation"
@@ -361,6 +368,12 @@ def main() -> None:
     elif args.cmd == "suite":
         muts = json.load(open(args.a))
         done: List[Dict[str, Any]] = []
+        if os.path.exists(args.b):
+            # resume: keep what an interrupted run has already decided
+            done = [m for m in json.load(open(args.b)) if m.get("suite") in ("pass", "fail")]
+            have = {m["id"] for m in done}
+            muts = [m for m in muts if m["id"] not in have]
+            print("resuming: %d decided, %d to go" % (len(done), len(muts)), flush=True)
         with concurrent.futures.ThreadPoolExecutor(max_workers=args.jobs) as ex:
             for i, m in enumerate(ex.map(suite_one, muts)):
                 done.append(m)
@@ -373,6 +386,11 @@ def main() -> None:
         muts = [m for m in json.load(open(args.a)) if m.get("suite") == "pass"]
         ids = [x for x in args.ids.split(",") if x]
         done = []
+        if os.path.exists(args.b):
+            done = [m for m in json.load(open(args.b)) if "caught" in m]
+            have = {m["id"] for m in done}
+            muts = [m for m in muts if m["id"] not in have]
+            print("resuming: %d decided, %d to go" % (len(done), len(muts)), flush=True)
         with concurrent.futures.ThreadPoolExecutor(max_workers=args.jobs) as ex:
             for i, m in enumerate(ex.map(lambda mm: checks_one(mm, args.inner_jobs, ids), muts)):
                 done.append(m)
